@@ -586,6 +586,7 @@ func worker(sh *ev.Shard) {
 	nb := sh.N - 1
 	paddings := [][]byte{nil, make([]byte, 10), fillBytes(0x80, 10), fillBytes(0xFF, 10)}
 	arena := make([]byte, 64)
+	arena2 := make([]byte, 64)
 	idx := 0
 	var states, trans, bufs int64
 	sampled := false
@@ -615,6 +616,18 @@ func worker(sh *ev.Shard) {
 				states += s
 				trans += t
 				bufs++
+				if pi == 0 && l > 0 {
+					// the same bytes as a sub-slice of a larger array (cap > len, plausible-looking bytes behind the end):
+					// a bound checked against the capacity instead of the length shows up as an accepted over-read
+					for i := range arena2 {
+						arena2[i] = 0x01
+					}
+					copy(arena2, buf)
+					s, t = c.explore(arena2[:n])
+					states += s
+					trans += t
+					bufs++
+				}
 				if !sampled && l == 3 && pi == 1 {
 					sampled = true
 					sh.Sample(map[string]any{"buffer_hex": fmt.Sprintf("%x", buf), "states": s, "transitions": t, "ops": len(c.ops), "note": "BFS from NewDecoder(buf); every op applied in every reachable (offset, mode) state"})
@@ -725,7 +738,7 @@ func main() {
 	N := ev.Pick(r, 4, 5)
 	r.Set("alphabet_hex", fmt.Sprintf("%x", sigma))
 	r.Set("max_buffer_length_before_padding", N)
-	r.Set("paddings", []string{"none", "00 x10", "80 x10", "ff x10"})
+	r.Set("paddings", []string{"none", "none with cap > len (tail 01...)", "00 x10", "80 x10", "ff x10"})
 	r.Set("operations", len(buildOps()))
 	r.Rule(fmt.Sprintf("explicit-state BFS per buffer: buffers = all byte strings of length <= %d over a 16-symbol wire alphabet, each also with three 10-byte paddings; state = all fields of csproto.Decoder read by reflection; every one of the operations (27 Decode*, Skip x 6 tags x 8 wire types, Seek x 9 offsets x 4 whence, Reset/More/Offset/SetMode/Mode, DecodeNested x 5 targets) is applied in every reachable state and judged against the spec-derived reference (err==nil => item exists, value equal, advance == item length; cursor within [0,len]; over-long declared length => error; returned slices inside the buffer; nested callee not invoked for over-long length). distinct_nontrivial = number of distinct (buffer, decoder state) pairs. Plus the declared-length family with a per-call TotalAlloc budget, run in an address-space-limited subprocess.", N))
 	r.Assume("inputs longer than the bound and bytes outside the alphabet are not covered; reference leniency: a 10th varint byte with bits above 2^64 is accepted by both sides")
